@@ -122,7 +122,11 @@ func zzH_C17_scanner() {
 	m := ZZNewModel("in", n)
 	m.MaxEmpty = 1
 	ctx := context.Background()
-	mode := zz.AnyIntIn("mode", 0, 3)
+	mode := zz.AnyIntIn("mode", 0, 4)
+	if mode == 4 {
+		m.FailAt = zz.AnyIntIn("failAt", 0, n)
+		m.FailWithRows = true
+	}
 	sc := NewScanner(frame.Slices(m.Keys, m.Vals), m)
 	var k, v int64
 	switch mode {
@@ -168,6 +172,23 @@ func zzH_C17_scanner() {
 		}
 		zz.Assert(m.Reads == reads, "no row is consumed by a rejected Scan")
 		zz.Assert(!sc.Scan(ctx, &k, &v), "the scanner stays failed after a rejected Scan")
+	case 4: // the input fails, possibly reporting rows together with the error
+		i := 0
+		for sc.Scan(ctx, &k, &v) {
+			zz.Assert(i < n, "no more rows than the stream holds")
+			if i >= n {
+				return
+			}
+			zz.Assert(zz.And(k == m.Keys[i], v == m.Vals[i]), "Scan yields the rows once each, in order")
+			i++
+		}
+		if m.Failed() {
+			zz.Reach("input failed")
+			zz.Assert(sc.Err() != nil, "a read error of the input is reported by Err, not turned into a clean end")
+			zz.Assert(!sc.Scan(ctx, &k, &v), "the scanner stays failed after an input error")
+		} else {
+			zz.Assert(i == n && sc.Err() == nil, "scanning ends with a nil error")
+		}
 	case 3: // Scanv
 		var gk, gv []int64
 		for c := 0; c < 4; c++ {
